@@ -1,5 +1,6 @@
 import SciVerif.Drive.C11
 import SciVerif.Model.C10
+import SciVerif.Model.C10Spec
 open Lean SciVerif.Drive SciVerif.C11.Drive
 
 namespace SciVerif.C10.Drive
@@ -15,13 +16,33 @@ def liveElement (natural : Bool) (s : Str) : Option EData :=
 
 def liveValid (natural : Bool) (s : Str) : Bool := (liveElement natural s).isSome
 
-/-- `{"k":"element","s":…,"natural":b}` -/
+/-- species descriptor of the specification: `["nucleon","p"]`, `["iso",sym,A,q]`, `["unspec",sym,q]` -/
+def getSp (j : Json) : Except String Spec.Sp := do
+  match ← getList j with
+  | [Json.str "nucleon", Json.str c] => pure (.nucleon (c.toList.headD ' '))
+  | [Json.str "iso", Json.str sym, a, q] => pure (.iso sym.toList (← a.getNat?) (← q.getInt?))
+  | [Json.str "unspec", Json.str sym, q] => pure (.unspecified sym.toList (← q.getInt?))
+  | _ => throw s!"bad species descriptor {j}"
+
+def sdataJson (d : Spec.SData) : Json :=
+  Json.mkObj [("mass", jrat d.mass), ("Z", jrat d.Z), ("N", jrat d.N), ("e", jrat d.e)]
+
+def liveSpec (natural : Bool) (sp : Spec.Sp) : Option Spec.SData :=
+  Spec.speciesData liveTable liveMe liveNucleon natural sp
+
+/-- `{"k":"element","s":…,"natural":b,"sp":descriptor|null}` -/
 def element (j : Json) : Except String Json := do
   let s ← (← field j "s").getStr?
   let natural ← (← field j "natural").getBool?
-  pure (match liveElement natural s.toList with
+  let model := match liveElement natural s.toList with
     | none => jstr "err"
-    | some d => edataJson d)
+    | some d => edataJson d
+  let spec ← match j.getObjVal? "sp" with
+    | .ok spj => if spj.isNull then pure Json.null else do
+        let sp ← getSp spj
+        pure (match liveSpec natural sp with | none => jstr "undefined" | some d => sdataJson d)
+    | .error _ => pure Json.null
+  pure (Json.mkObj [("model", model), ("spec", spec)])
 
 /-- `{"k":"preprocess","s":…}` → the four intermediate strings -/
 def preprocessK (j : Json) : Except String Json := do
@@ -68,11 +89,74 @@ def formula (j : Json) : Except String Json := do
   let natural ← (← field j "natural").getBool?
   let txt := render f
   let ev : Comps Rat := evalF f
+  -- specification of data and totals: descriptors of the species come with the request
+  let descs : List (String × Json) ← match j.getObjVal? "species" with
+    | .ok (Json.obj kvs) => pure (kvs.toList)
+    | _ => pure []
+  let specRows : Option (List (Str × Nat × Spec.SData)) ← (expand f).foldrM (fun kn acc => do
+      match descs.find? (fun d => d.1.toList == kn.1) with
+      | none => pure none
+      | some d =>
+        let sp ← getSp d.2
+        pure (match acc, liveSpec natural sp with
+          | some rows, some sd => some ((kn.1, kn.2, sd) :: rows)
+          | _, _ => none)) (some [])
+  let specJ : Json := match specRows with
+    | none => jstr "undefined"
+    | some rows =>
+      let t := Spec.totals (rows.map fun r => (r.2.1, r.2.2))
+      Json.mkObj [("rows", jarr (fun (r : Str × Nat × Spec.SData) =>
+          Json.mkObj [("expr", jchars r.1), ("count", jnat r.2.1), ("data", sdataJson r.2.2)]) rows),
+        ("sum", sdataJson t)]
   pure (Json.mkObj [
+    ("spec", specJ),
+    ("wf", Json.bool f.wf),
+    ("explicit", jchars (renderExplicit f)),
+    ("preprocess_ok", Json.bool (preprocess txt == renderExplicit f)),
     ("text", jchars txt),
     ("expand", jarr (fun (kn : Str × Nat) => Json.arr #[jchars kn.1, jnat kn.2]) (expand f)),
     ("evalF", jarr (fun (kp : Str × Rat) => Json.arr #[jchars kp.1, jrat kp.2]) ev),
     ("model", substanceJson natural txt)])
+
+/-- value semantics of a history of operations on substances (objects are numbered in order of
+    creation): `["new",[[key,n],…]]`, `["add",i,key,n]` (in place), `["plus",i,j]`, `["mul",i,x]`,
+    `["pluselem",i,key,n]`; the answer lists all objects after every operation -/
+def opsRun : List Json → List (Comps Rat) → Except String (List (List (Comps Rat)))
+  | [], _ => pure []
+  | op :: rest, objs => do
+    let a ← getList op
+    let setAt := fun (i : Nat) (v : Comps Rat) => objs.zipIdx.map fun (o, k) => if k == i then v else o
+    let getKN := fun (kj nj : Json) => do
+      let k ← kj.getStr?
+      let n ← getRat nj
+      pure (k.toList, n)
+    let objs' ← match a with
+      | [Json.str "new", l] => do
+        let kvs ← (← getList l).mapM fun kv => do
+          match ← getList kv with
+          | [k, n] => getKN k n
+          | _ => throw "bad pair"
+        pure (objs ++ [kvs.foldl (fun acc kp => cadd acc kp.1 kp.2) []])
+      | [Json.str "add", i, k, n] => do
+        let i ← i.getNat?
+        let (k, n) ← getKN k n
+        pure (setAt i (cadd (objs.getD i []) k n))
+      | [Json.str "plus", i, j] => do
+        pure (objs ++ [cplus (objs.getD (← i.getNat?) []) (objs.getD (← j.getNat?) [])])
+      | [Json.str "mul", i, x] => do
+        pure (objs ++ [cmul (objs.getD (← i.getNat?) []) (← getRat x)])
+      | [Json.str "pluselem", i, k, n] => do
+        let (k, n) ← getKN k n
+        -- `_add` with a bare component: the left operand's entries, then `add(other.expr, other.proportion)`
+        pure (objs ++ [cadd (caddAll [] (objs.getD (← i.getNat?) [])) k n])
+      | _ => throw s!"bad op {op}"
+    let tail ← opsRun rest objs'
+    pure (objs' :: tail)
+
+def opsK (j : Json) : Except String Json := do
+  let ops ← getList (← field j "ops")
+  let snaps ← opsRun ops []
+  pure (jarr (jarr (jarr fun (kp : Str × Rat) => Json.arr #[jchars kp.1, jrat kp.2])) snaps)
 
 def handle (j : Json) : Except String Json := do
   let k ← (← field j "k").getStr?
@@ -81,6 +165,7 @@ def handle (j : Json) : Except String Json := do
   | "formula" => formula j
   | "preprocess" => preprocessK j
   | "element" => element j
+  | "ops" => opsK j
   | _ => throw s!"C10: unknown kind {k}"
 
 end SciVerif.C10.Drive
